@@ -115,6 +115,8 @@ func genRelayCfg(g *gen, focus string) *Cfg {
 	if g.chance(60) || focus == "C18" {
 		c.Routes = genRouteTable(g, c, 1+g.intn(3))
 	}
+	// now and then a datagram write of the proxy fails (ENOBUFS): that one message is lost, nothing else changes
+	c.Faults.UDPWriteErrPct = g.pick2(0, 0, 0, 0, 0, 4, 20)
 	c.KeepNextHop = g.pick("", "", "true", "false", "yes", "no", "1")
 	if c.KeepNextHop == "" && g.chance(30) {
 		c.EnvKeep = g.pick("true", "false", "on")
@@ -1087,7 +1089,7 @@ func (st *relayState) judgeBurst(pending []*Op) {
 		}
 		for _, e := range st.emissionsOf(op.ID) {
 			_, eip, eport := emissionDest(e.E)
-			if li, tr := st.c.listenerAt(eip, eport); li >= 0 && tr == e.E.Proto && e.M != nil {
+			if li, tr := st.c.listenerAt(eip, eport); li >= 0 && tr == e.E.Proto && e.M != nil && e.E.Err == "" {
 				if vs, err := e.M.Vias(); err == nil {
 					st.learn(li, tr, udpAddr(e.E.Src).IP.String(), vs)
 					w.stat("probe:spiral-arrival")
@@ -1108,6 +1110,10 @@ func (st *relayState) judgeBurst(pending []*Op) {
 		j := st.done[op.ID]
 		if j == nil || j.em == nil || j.em.M == nil || j.extra != 1 {
 			w.stat("skipped:answer-without-proxy-via")
+			continue
+		}
+		if j.em.E.Err != "" {
+			w.stat("skipped:relay-lost-to-write-error") // nobody received the request: nobody answers
 			continue
 		}
 		for k, status := range strings.Split(op.S["answer"], ",") {
